@@ -222,6 +222,24 @@ def run_docs(payload):
             o["groups"] = project(r, cs)
             for k in range(len(cs)):
                 o["prefix"].append(project(resolve_citations(cs[:k]), cs))
+            # history: the SAME objects are resolved again after a caller learned more about them -- the year of a citation
+            # whose reporter string names several editions is filled in and its edition guessed (public attributes and
+            # method).  Equality is about the current values, so the second result is judged against the abstraction of the
+            # objects as they are NOW.
+            from eyecite.models import ResourceCitation
+            changed = False
+            for c in cs:
+                if isinstance(c, ResourceCitation) and c.edition_guess is None and c.year is None:
+                    eds = [e for e in (c.exact_editions or c.variation_editions) if e.start]
+                    if len(eds) >= 2:
+                        c.year = eds[len(eds) - 1].start.year
+                        c.guess_edition()
+                        changed = changed or c.edition_guess is not None
+            if changed:
+                sec = {"cites": abstract_extracted(cs), "groups": project(resolve_citations(cs), cs), "prefix": []}
+                for k in range(len(cs)):
+                    sec["prefix"].append(project(resolve_citations(cs[:k]), cs))
+                o["second"] = sec
         except Exception as ex:  # noqa: BLE001
             o["raised"] = f"{type(ex).__name__}: {ex}"
         res.append(o)
